@@ -85,7 +85,8 @@ def config(spec, values, workdir, with_biases=True):
     parts = []
     for i, cv in enumerate(cvs):
         c = dict(cv)
-        if spec["error_item"] and i == 0 and with_biases and len(cv["comps"]) >= 1:
+        if spec["error_item"] and i < 3 and with_biases and len(cv["comps"]) >= 1:
+            # up to three failing items: their errors are raised concurrently on different threads
             c = dict(cv)
             c["scripted"] = "verr"     # the engine-side callback of this scripted function returns an error
             c["comps"] = [dict(x, coeff=1.0, exp=1) for x in cv["comps"]] if cv["vtype"] == gen.SCALAR else cv["comps"]
